@@ -87,6 +87,20 @@ def _get_finders_by_type() -> dict:
 
 #########################################################
 # Config for GetFromAll
+_default_getter: list = []
+
+
+def _get_default_getter():
+    """
+    Builds the default Getter instance once.
+    GetFromAll groups the typed searches by Getter instance (as FindInAll does with Finders, see above).
+    """
+    if not _default_getter:
+        from spil import GetFromPaths
+        _default_getter.append(GetFromPaths())
+    return _default_getter[0]
+
+
 def get_getter_for(sid, attribute=None, config=None):
     """
     Configuration used by GetFromAll, to define which Getter is used for a given Sid or Search Sid.
@@ -135,7 +149,7 @@ def get_getter_for(sid, attribute=None, config=None):
         # 'shot__sequence': GetFromSG(),
         # 'shot__task': GetFromSG(),
         # 'asset__task': GetFromSG(),
-        'default': GetFromPaths()
+        'default': _get_default_getter()
     }
 
     if sid.type in getters_by_type:
